@@ -41,7 +41,13 @@ def labels(rng, n, pool, default_prefix, kinds=True):
     return ls
 
 
-def shape(rng, nmax, mmax, nmin=1, mmin=1, force_nonsquare=0.7, big=0.15, bigmin=11):
+HUGE_SIZES = (65, 100, 129, 150, 257, 300)
+
+
+def shape(rng, nmax, mmax, nmin=1, mmin=1, force_nonsquare=0.7, big=0.15, bigmin=11, huge=0.0):
+    if huge and rng.random() < huge:
+        # far more alternatives than any internal block / chunk / narrow counter (64, 128, 256)
+        return rng.choice(HUGE_SIZES), rng.randint(mmin, mmax)
     for _ in range(100):
         if nmax >= bigmin and rng.random() < big:
             n = rng.randint(bigmin, nmax)
@@ -134,12 +140,24 @@ def inject_structure(rng, mtx, objs, p_dup=0.3, p_dom=0.4):
 
 
 def dm_case(rng, nmax=7, mmax=5, nmin=1, mmin=1, modes=VALUE_MODES, positive=False,
-            wmode=None, omode=None, structure=True, big=0.15, int_dtypes=0.0, label_kinds=True):
-    n, m = shape(rng, nmax, mmax, nmin, mmin, big=big)
+            wmode=None, omode=None, structure=True, big=0.15, int_dtypes=0.0, label_kinds=True, huge=0.0):
+    n, m = shape(rng, nmax, mmax, nmin, mmin, big=big, huge=huge)
     mode = rng.choice(list(modes))
+    if n >= min(HUGE_SIZES):
+        # keep the exact rational arithmetic of the model cheap: short numerators and denominators only
+        small = [x for x in modes if x in ("tiny012", "tiny123", "int", "dyadic")] or ["int"]
+        mode = rng.choice(small)
+        wmode = wmode or rng.choice(["dyadic", "int", "sum1"])
     mtx = values(rng, n, m, mode, positive=positive)
     objs = objectives(rng, m, omode)
     tags = inject_structure(rng, mtx, objs) if structure else []
+    if n >= min(HUGE_SIZES) and structure and rng.random() < 0.5:
+        # one alternative that every other one beats on every criterion (more than 255 of them, sometimes)
+        lo = [min(r[j] for r in mtx) for j in range(m)]
+        hi = [max(r[j] for r in mtx) for j in range(m)]
+        mtx[rng.randrange(n)] = [(lo[j] - 1.0 if not positive else lo[j] / 2.0) if objs[j] == 1 else hi[j] + 1.0
+                                 for j in range(m)]
+        tags.append("worst_row")
     if positive:
         mtx = [[abs(x) if x != 0 else 1.0 for x in r] for r in mtx]
     c = {
